@@ -18,7 +18,7 @@ import (
 
 func init() {
 	Register(&Scenario{
-		Name: "magnet", Props: []string{"C12"}, CrashTo: "C12",
+		Name: "magnet", Knobs: true, Props: []string{"C12"}, CrashTo: "C12",
 		Horizon: 3 * time.Hour, MaxSteps: 2000000, Weight: 1, Main: magnetMain,
 	})
 }
